@@ -717,9 +717,20 @@ func oracleC33(v *View, vd *Verdict) {
 		sleepPending := false
 		var activeSince, lastPing int64 = -1, -1
 		lossy := len(v.R.Plan.Cfg.SN.Rules) > 0 || (v.R.Plan.SGW != nil && (len(v.R.Plan.SGW.Rules) > 0 || v.R.Plan.SGW.SilentAtMs > 0))
+		// once an API call has failed the client's goroutine group is cancelled: nothing more is owed
+		deadIdx := int(^uint(0) >> 1)
+		for _, a := range apiCalls(v) {
+			if a.client == cp.Name && a.returned && a.err != "nil" && !strings.Contains(a.err, "cannot call Sleep") && a.retIdx < deadIdx {
+				deadIdx = a.retIdx
+			}
+		}
 		for _, x := range evs {
 			if x.e.SNErr != nil {
 				continue
+			}
+			if x.e.Idx > deadIdx {
+				state = "dead"
+				break
 			}
 			p := x.e.SN
 			if x.tx {
@@ -784,7 +795,9 @@ func oracleC33(v *View, vd *Verdict) {
 				}
 				bound := apiBound(v.R.Plan, cp, a)
 				if a.returned && a.err != "nil" && !strings.Contains(a.err, "cannot call Sleep") {
-					vd.Add("C33", "C33/api-call-failed/"+a.op, "client %s: %s returned %q although the gateway answered everything (keep-alive %d ms)", cp.Name, a.desc, a.err, cp.KeepAliveMs)
+					// later failures are consequences of the first one (the client's goroutine group is cancelled)
+					vd.Add("C33", "C33/api-call-failed/first="+a.op+"/"+errClassTX(a.err), "client %s: %s returned %q although the gateway answered everything (keep-alive %d ms)", cp.Name, a.desc, a.err, cp.KeepAliveMs)
+					break
 				}
 				if !a.returned && v.R.SimNs-int64(6e9)-a.invT > bound {
 					vd.Add("C33", "C33/api-call-hangs/"+a.op, "client %s: %s never returned although the gateway answered everything (keep-alive %d ms)", cp.Name, a.desc, cp.KeepAliveMs)
